@@ -350,13 +350,12 @@ func init() {
 		Pkg: "verif/harness/c01",
 		Runs: []RunDef{
 			c01("H_lex_spans", n(0), "quick", "lexed"), c01("H_lex_spans", n(1), "quick", "lexed"),
-			c01("H_lex_spans", map[string]int{"n": 2, "ctx": 0}, "quick", "lexed"),
+			c01("H_lex_spans", n(2), "quick", "lexed"),
 			c01("H_lex_spans_mid", n(0), "quick", "lexed"), c01("H_lex_spans_mid", n(1), "quick", "lexed"), c01("H_lex_spans_mid", n(2), "quick", "lexed"),
 			c01("H_lex_template_spans", n(0), "quick", "lexed"), c01("H_lex_template_spans", n(1), "quick", "lexed"), c01("H_lex_template_spans", n(2), "quick", "lexed"),
 			c01("H_error_line", n(0), "quick", "parsed", "end"), c01("H_error_line", n(1), "quick", "parsed", "end"), c01("H_error_line", n(2), "thorough", "parsed", "end"),
 			c01("H_error_line_instring", n(1), "quick", "parsed", "end"), c01("H_error_line_instring", n(2), "quick", "parsed", "end"), c01("H_error_line_instring", n(3), "quick", "parsed", "end"), c01("H_error_line_instring", n(4), "thorough", "parsed", "end"),
 			c01("H_lex_spans_mid", n(3), "thorough", "lexed"),
-			c01("H_lex_spans", n(2), "thorough", "lexed"),
 		},
 		Rule:    rule + "; span laws asserted on every token of the real Tokenize output for opener ‖ symbolic window: 0<=Start<=End<=len, ordered/non-overlapping, Line = number of '\\n' before Start (sum of ite terms over symbolic bytes), Literal = src[Start:End] for identifier/number/variable tokens; H_lex_template_spans: the same laws on TokenizeTemplate (HTML + <?php ?> blocks, window before / inside / after a block); H_error_line (second clause): a program with one planted fault (5 runtime faults ending in an uncaught throwable, 6 parse faults) on its own line after a neutral construct holding the symbolic window (comment, string, nowdoc, blanks) must carry, in the location the diagnostic prints, the line computed from the symbolic bytes; H_error_line_instring: the faulty interpolation ({$..} or @{..}) sits inside a string / heredoc whose text in front of it is the symbolic window (newlines, CR LF, multi-byte and invalid UTF-8), the reported line must equal the number of newlines before the interpolation",
 		Outside: []string{"columns of error locations; a lone CR inside a heredoc body (normalised to a line feed there only); the text written to stderr (the location object the printer formats is checked)", "columns inside re-lexed interpolation fragments", "HTML mode, LSP", "windows > 2 bytes"},
